@@ -734,6 +734,37 @@ func runScript(s scriptT) obsT {
 		}
 	}
 	time.Sleep(300 * time.Millisecond)
+	// on a loaded machine a payload can take longer: while both hubs hold a completed connection, what was just written is given
+	// up to three more seconds to arrive (a connection that does not carry payloads never delivers it)
+	echoArrived := func(name string) bool {
+		n, peer := eth.nodes[name], eth.nodes[other[name]]
+		n.mu.Lock()
+		nw := len(n.writers)
+		tail := map[string]bool{}
+		for i := len(n.sent) - nw; i >= 0 && i < len(n.sent); i++ {
+			tail[n.sent[i]] = true
+		}
+		n.mu.Unlock()
+		peer.mu.Lock()
+		defer peer.mu.Unlock()
+		for _, r := range peer.received[before[other[name]]:] {
+			if tail[r] {
+				return true
+			}
+		}
+		return false
+	}
+	completed := func(name string) bool {
+		c, ok := eth.nodes[name].h.VerifRegistry()[skis[other[name]]]
+		if !ok {
+			return false
+		}
+		st, _ := c.ShipHandshakeState()
+		return st == model.SmeStateComplete
+	}
+	for k := 0; k < 60 && completed("A") && completed("B") && !(echoArrived("A") && echoArrived("B")); k++ {
+		time.Sleep(50 * time.Millisecond)
+	}
 	// a pairing-state notification is delivered 500 ms after its state was stored, by a goroutine of its own: on a loaded machine
 	// it can be later than the silence that was taken for quiescence. A notification that still differs from what the hub answers
 	// is given two more seconds (a last notification that is wrong stays wrong)
